@@ -25,14 +25,15 @@ HEADER = [
     ("    pass", None),
     ("", None),
     ("", None),
-    ("def h(v):", (8, 3)),
-    ("    return v + 1", (9, 1)),
+    ("def h(x):", (8, 3)),
+    ("    y = x + 1", (9, 1)),
+    ("    return y", (9, 2)),
     ("", None),
     ("", None),
-    ("def g(v):", (8, 4)),
-    ("    if v:", (9, 2)),
-    ("        return v + G", (9, 3)),
-    ("    return 0", (9, 4)),
+    ("def g(y):", (8, 4)),
+    ("    if y:", (9, 3)),
+    ("        return y + G", (9, 4)),
+    ("    return 0", (9, 5)),
     ("", None),
     ("", None),
     ("def f(a, b):", (8, 5)),
@@ -59,7 +60,7 @@ def render(prog: list) -> tuple[str, dict, dict]:
         if path is not None:
             line_of[path] = len(lines)
             kind_of[path] = {(8, 1): "modG", (8, 2): "modBox", (8, 3): "modH", (8, 4): "modG_", (8, 5): "modF",
-                             (9, 1): "hret", (9, 2): "gif", (9, 3): "gretG", (9, 4): "gret0"}[path]
+                             (9, 1): "hbin", (9, 2): "hret", (9, 3): "gif", (9, 4): "gretG", (9, 5): "gret0"}[path]
 
     def emit(text: str, ind: int, path: tuple, kind: str) -> None:
         lines.append("    " * ind + text)
@@ -186,20 +187,27 @@ def _trace_lines(trace, fname: str) -> list[int]:
     return sorted({i.lineno for i in trace.executed_instructions if i.file == fname and isinstance(i.lineno, int)})
 
 
-def statement_variant(mod_name: str, src_dir: str, a: int, b: int, timeout: float = 10.0) -> dict:
+def load(mod_name: str, src_dir: str):
+    """Import the module through Pynguin's real import hook with the CHECKED metric (generator._load_sut)."""
+    from harness.adapters import pyn  # noqa: PLC0415
+
+    return pyn.load_sut(mod_name, src_dir, metrics=("CHECKED",))
+
+
+def statement_variant(sp, fname: str, a: int, b: int, timeout: float = 60.0) -> dict:
     """Statement checked coverage exactly as generator._run wires it: CHECKED metric, executor with the
-    real RemoteStatementSlicingObserver; afterwards the same real DynamicSlicer is asked again for the
-    instructions of the slice of the criterion the observer used."""
+    real RemoteStatementSlicingObserver.  compute_statement_checked_lines and
+    DynamicSlicer.map_instructions_to_lines are wrapped (and delegate to the real ones) only to read the
+    criteria the observer recorded and the slice the slicer returned."""
     from harness.adapters import pyn  # noqa: PLC0415
     import pynguin.slicer.statementslicingobserver as sso  # noqa: PLC0415
     from pynguin.slicer.dynamicslicer import DynamicSlicer  # noqa: PLC0415
 
-    fname = str(Path(src_dir) / f"{mod_name}.py")
-    sp, _mod = pyn.load_sut(mod_name, src_dir, metrics=("CHECKED",))
     ex = pyn.make_executor(sp, timeout=timeout)
     ex.add_remote_observer(sso.RemoteStatementSlicingObserver())
-    seen: dict = {}
+    seen: dict = {"slices": []}
     real = sso.compute_statement_checked_lines
+    real_map = DynamicSlicer.map_instructions_to_lines
 
     def spy(statements, trace, subject_properties, criteria):
         seen["criteria"] = dict(criteria)
@@ -207,11 +215,17 @@ def statement_variant(mod_name: str, src_dir: str, a: int, b: int, timeout: floa
         seen["returned"] = set(out)
         return out
 
+    def spy_map(instructions, subject_properties):
+        seen["slices"].append(list(instructions))
+        return real_map(instructions, subject_properties)
+
     sso.compute_statement_checked_lines = spy
+    DynamicSlicer.map_instructions_to_lines = staticmethod(spy_map)
     try:
         result = ex.execute(pyn.make_test([f"var_0 = f({a}, {b})"]))
     finally:
         sso.compute_statement_checked_lines = real
+        DynamicSlicer.map_instructions_to_lines = staticmethod(real_map)
     trace = result.execution_trace
     out = {"timeout": bool(result.timeout), "exc": sorted(type(v).__name__ for v in result.exceptions.values()),
            "checked": sorted(sp.lineids_to_linenos(trace.checked_lines)),
@@ -224,18 +238,16 @@ def statement_variant(mod_name: str, src_dir: str, a: int, b: int, timeout: floa
         out["has_crit"] = True
         ci = trace.executed_instructions[crit.trace_position]
         out["crit_is_store"] = bool(ci.name == "STORE_NAME" and getattr(ci, "argument", None) == "var_0")
-        try:
-            instrs = DynamicSlicer(sp.existing_code_objects).slice(trace, crit)
+        if len(seen["slices"]) == 1:
+            instrs = seen["slices"][0]
             out["slice"] = _instr_proj(instrs, fname)
             out["crit_in_slice"] = any(_same_instr(u, ci) for u in instrs)
-            out["slice_lines_again"] = sorted(sp.lineids_to_linenos(DynamicSlicer.map_instructions_to_lines(instrs, sp)))
-        except BaseException as e:  # noqa: BLE001
-            out["slice_error"] = f"{type(e).__name__}: {e}"
-    sys.modules.pop(mod_name, None)
+        else:
+            out["slice_error"] = f"{len(seen['slices'])} slices computed for one statement"
     return out
 
 
-def assertion_variant(mod_name: str, src_dir: str, a: int, b: int, value: int, timeout: float = 10.0) -> dict:
+def assertion_variant(sp, fname: str, a: int, b: int, value: int, timeout: float = 60.0) -> dict:
     """Assertion checked coverage as generator._track_final_metrics wires it: CHECKED metric,
     set_instrument(True), real RemoteAssertionExecutionObserver, compute_assertion_checked_coverage."""
     from harness.adapters import pyn  # noqa: PLC0415
@@ -244,8 +256,6 @@ def assertion_variant(mod_name: str, src_dir: str, a: int, b: int, value: int, t
     from pynguin.slicer.dynamicslicer import DynamicSlicer  # noqa: PLC0415
     from pynguin.testcase.execution import RemoteAssertionExecutionObserver  # noqa: PLC0415
 
-    fname = str(Path(src_dir) / f"{mod_name}.py")
-    sp, _mod = pyn.load_sut(mod_name, src_dir, metrics=("CHECKED",))
     ex = pyn.make_executor(sp, timeout=timeout)
     ex.set_instrument(True)
     ex.add_remote_observer(RemoteAssertionExecutionObserver())
@@ -270,7 +280,6 @@ def assertion_variant(mod_name: str, src_dir: str, a: int, b: int, value: int, t
             out["cov_num"] = round(cov * len(sp.existing_lines))
         except BaseException as e:  # noqa: BLE001
             out["slice_error"] = f"{type(e).__name__}: {e}"
-    sys.modules.pop(mod_name, None)
     return out
 
 
@@ -302,10 +311,15 @@ def run_case(args) -> dict:
         st = asr = None
         if ev["gt_ok"]:
             try:
-                st = statement_variant(mod, str(wd), a, b)
-                asr = assertion_variant(mod, str(wd), a, b, gt["ret"])
+                sp, module = load(mod, str(wd))
+                st = statement_variant(sp, str(path), a, b)
+                # the module is instrumented once for both executions: put the only module state (the global G)
+                # back to what the import left (the import trace, which every execution trace starts from, says so)
+                module.G = 0
+                asr = assertion_variant(sp, str(path), a, b, gt["ret"])
             except BaseException as ex:  # noqa: BLE001
                 err = f"{type(ex).__name__}: {ex}"
+            sys.modules.pop(mod, None)
         ev["ok"] = st is not None and asr is not None
         ev["error"] = err
         if st is None:
@@ -320,7 +334,6 @@ def run_case(args) -> dict:
             "st_returned_eq_trace": st["returned_eq_trace"], "st_trace_lines": st["trace_lines"],
             "st_existing": st["existing_lines"], "st_has_crit": st["has_crit"], "st_crit_is_store": st["crit_is_store"],
             "st_crit_in_slice": st["crit_in_slice"], "st_slice": st["slice"], "st_slice_error": st["slice_error"],
-            "st_slice_lines_again": st.get("slice_lines_again", []),
             "as_timeout": asr["timeout"], "as_exc": asr["exc"], "as_n": asr["n_assertions"],
             "as_checked": asr["checked"], "as_slice": asr["slice"], "as_crit_in_slice": asr["crit_in_slice"],
             "as_cov_num": asr["cov_num"], "as_n_existing": asr["n_existing"], "as_trace_lines": asr["trace_lines"],
